@@ -5,7 +5,12 @@ from harness.scen import call, LOOK_TO, GO
 class C08(scen.WorldProp):
     id = "C08"
     lean_module = "Wheatley.Props.C08"
-    theorems = []
+    theorems = ["Wheatley.C08.ownership_spec",
+                "Wheatley.C08.turn_sample",
+                "Wheatley.C08.strike_law",
+                "Wheatley.C08.strike_owner",
+                "Wheatley.C08.at_most_one_strike",
+                "Wheatley.C08.place_advances"]
     level_text = ("theorems: a strike is emitted only for a bell that was Wheatley's when its turn began, at most one "
                   "per place, with the stroke equal both to the view's stroke of that bell and to the row's parity; "
                   "the ownership test is exactly 'unassigned and no name configured, or assigned to a user of the "
@@ -134,7 +139,9 @@ class C08(scen.WorldProp):
             prev_t = t
         for (t, b, h) in scen.rings(reply):
             pass
-        if reply["rejects"] and not human_touched_wheatley:
+        # with assignments changing mid-turn a human may legitimately strike a bell Wheatley sampled
+        # as its own (turn-start reading); the no-rejection clause is checked on static ownership
+        if reply["rejects"] and not human_touched_wheatley and req["churn"] == 0:
             return f"the server rejected {reply['rejects']} of Wheatley's strikes (wrong stroke)"
         return None
 
